@@ -20,7 +20,8 @@ def slim(p):
         "libfuncs": [{"gen": lf["gen"], "params": lf["params"], "branches": [{"vars": b["vars"]} for b in lf["branches"]],
                       "known": lf["known"]} for lf in ex["libfuncs"]],
         "types": [{"gen": t["gen"], "args": [{"k": a["k"], "t": a["t"]} for a in t["args"]]} for t in ex["types"]],
-        "funcs": [{"entry": f["entry"], "params": f["params"], "rets": f["rets"]} for f in ex["funcs"]],
+        "funcs": [{"entry": f["entry"], "params": f["params"], "rets": f["rets"], "fn_ap": f["fn_ap"], "cost": f["cost"]} for f in ex["funcs"]],
+        "code": [{"br": c["br"]} for c in ex.get("code", [])],
     }}
 
 
@@ -64,6 +65,19 @@ def main(tier, replay=None):
     res, bad = annot_pass(accepted, "accepted")
     chk.add_tlc(res)
     byid = {p["id"]: p for p in accepted}
+    ENV = {"EnvApMismatch", "EnvWalletMismatch", "WalletNegative", "FunctionApChange", "ApTrackingAlreadyEnabled"}
+    env_diag = {}
+    for pid, rules in list(bad.items()):
+        env_rules = [r for r in rules if r[1] in ENV]
+        for r in env_rules:
+            env_diag[r[1]] = env_diag.get(r[1], 0) + 1
+        rules = [r for r in rules if r[1] not in ENV]
+        if env_rules:
+            log(f"[C15] static environment rule(s) violated by accepted program {pid} (diagnostic; C17/C04 matter): {env_rules[:3]}")
+        if not rules:
+            del bad[pid]
+        else:
+            bad[pid] = rules
     for pid, rules in bad.items():
         p = byid[pid]
         kinds = sorted({r[1] for r in rules})
@@ -102,5 +116,6 @@ def main(tier, replay=None):
         "rule": "accepted programs with >= 10 statements plus every accepted mutant (distinct by construction: one plan each)",
         "rejected_mutants_with_valid_registry": n_rej, "rejected_sample_checked_by_spec": n_rej_sample,
         "rejected_sample_also_rejected_by_spec": agree, "spec_rules_fired_on_rejected": spec_rej,
+        "static_env_rule_violations_on_accepted": env_diag,
         "exhaustive": False,
     })
